@@ -18,14 +18,14 @@ M = {
     "M03_decoder_gt": ("src/valuearray.c", "run >= 0; --run)", "run > 0; --run)", ["C02", "C04"], [], False),
     "M04_bitpad": ("src/valuearray.c", "\t\tvalue = value << (8 - remaining_bits);\n", "", ["C02", "C03"], [], False),
     "M05_fread_int8": ("src/internals.c", "if (fread(&c, sizeof(char), 1, f) != 1)", "if (fread(&c, sizeof(char), 1, f) > 1)", ["C06"], [], False),
-    "M06_fwrite_int32": ("src/internals.c", "if (fwrite(&v, sizeof(int), 1, f) != 1)", "if (fwrite(&v, sizeof(int), 1, f) > 1)", ["C13"], [], False),
+    "M06_fwrite_int32": ("src/internals.c", "if (fwrite(&v, sizeof(int), 1, f) != 1 || ferror(f))", "if (fwrite(&v, sizeof(int), 1, f) > 1 || ferror(f))", ["C13"], [], False),
     "M07_len7_15": ("src/internals.c", "else if (val < (1 << 14))", "else if (val < (1 << 15))", ["C16"], [], False),
     "M08_bytesize": ("src/object.c", "byte_size += sbdf_get_7bitpacked_len(length) + length;", "byte_size += length;", ["C03", "C07"], [], False),
     "M09_negcount": ("src/object.c", "\tif (count < 0)\n\t{\n\t\treturn SBDF_ERROR_INVALID_SIZE;\n\t}\n\n\tt = calloc(1, sizeof(sbdf_object));", "\tt = calloc(1, sizeof(sbdf_object));", ["C09"], [], False),
     "M10_flag2": ("src/tablemetadata.c", "\tif (v)\n\t{\n        if (v != 1)\n        {\n            return SBDF_ERROR_ARRAY_LENGTH_MUST_BE_1;\n        }\n\n\t\tif (error = sbdf_obj_read(in, vt, &value))", "\tif (v)\n\t{\n\t\tif (error = sbdf_obj_read(in, vt, &value))", ["C09"], [], False),
     "M11_colcount": ("src/tableslice.c", "\tif (column_count != meta->no_columns)\n\t{\n\t\treturn SBDF_ERROR_COLUMN_COUNT_MISMATCH;\n\t}\n", "", ["C09", "C11"], [], False),
     "M12_errstr": ("src/errors.c", "\tcase SBDF_ERROR_INVALID_SIZE:\n\t\treturn \"the number of elements is incorrect\";\n", "", ["C09"], [], False),
-    "M13_copyclash": ("src/metadata.c", "\t\t\tif (!strcmp(first->name, prev->name))\n\t\t\t{\n\t\t\t\treturn SBDF_ERROR_METADATA_ALREADY_EXISTS;\n\t\t\t}", "\t\t\tif (0 && !strcmp(first->name, prev->name))\n\t\t\t{\n\t\t\t\treturn SBDF_ERROR_METADATA_ALREADY_EXISTS;\n\t\t\t}", ["C10"], [], False),
+    "M13_copyclash": ("src/metadata.c", "\t\tfor (prev = out->first; prev; prev = prev->next)\n\t\t{\n\t\t\tif (!strcmp(first->name, prev->name))", "\t\tfor (prev = out->first; prev; prev = prev->next)\n\t\t{\n\t\t\tif (0 && !strcmp(first->name, prev->name))", ["C10"], [], False),
     "M14_remove_frozen": ("src/metadata.c", "\tif (!out->modifiable)\n\t{\n\t\treturn SBDF_ERROR_METADATA_READONLY;\n\t}\n\n\titem = out->first;\n\tprev = 0;\n\n\twhile (item)\n\t{\n\t\tif (!strcmp(name, item->name))\n\t\t{\n\t\t\tif (prev)", "\titem = out->first;\n\tprev = 0;\n\n\twhile (item)\n\t{\n\t\tif (!strcmp(name, item->name))\n\t\t{\n\t\t\tif (prev)", ["C10"], [], False),
     "M15_dupprop": ("src/columnslice.c", "\t\tif (!strcmp(name, out->property_names[i]))\n\t\t{\n\t\t\treturn SBDF_ERROR_PROPERTY_ALREADY_EXISTS;\n\t\t}", "\t\tif (i > 2 && !strcmp(name, out->property_names[i]))\n\t\t{\n\t\t\treturn SBDF_ERROR_PROPERTY_ALREADY_EXISTS;\n\t\t}", ["C11"], [], False),
     "M16_objeq_first": ("src/object.c", "\t\tfor (i = 0; i < lhs->count; ++i)\n\t\t{\n\t\t\tint cmp = 0;", "\t\tfor (i = 0; i < lhs->count && i < 1; ++i)\n\t\t{\n\t\t\tint cmp = 0;", ["C15"], [], False),
@@ -50,7 +50,7 @@ M = {
     "M34_int8_not_sticky": ("src/internals.c", "if (fwrite(&c, sizeof(char), 1, f) != 1 || ferror(f))", "if (fwrite(&c, sizeof(char), 1, f) != 1)", ["C13"], ["C01"], False),
     # harmless rewrites: no check may report
     "H01_growth_x2": ("src/internals.c", "cap = 1 + cap * 3 / 2;", "cap = 1 + cap * 2;", [], ["C11", "C14", "C01", "C05"], True),
-    "H02_obj401_io": ("src/object.c", "if (fwrite(*data, 1, length, f) != length)\n\t\t\t\t\t\t{\n\t\t\t\t\t\t\treturn SBDF_ERROR_OUT_OF_MEMORY;", "if (fwrite(*data, 1, length, f) != length)\n\t\t\t\t\t\t{\n\t\t\t\t\t\t\treturn SBDF_ERROR_IO;", [], ["C13", "C01", "C03"], True),
+    "H02_obj401_io": ("src/object.c", "if (fwrite(*data, 1, length, f) != length || ferror(f))\n\t\t\t\t\t\t{\n\t\t\t\t\t\t\treturn SBDF_ERROR_OUT_OF_MEMORY;", "if (fwrite(*data, 1, length, f) != length || ferror(f))\n\t\t\t\t\t\t{\n\t\t\t\t\t\t\treturn SBDF_ERROR_IO;", [], ["C13", "C01", "C03"], True),
     "H03_memmove": ("src/sbdfstring.c", "\t\t\tmemcpy(ptr, str, length);", "\t\t\tmemmove(ptr, str, length);", [], ["C20", "C18", "C15"], True),
     "H04_const_table": ("src/internals.c", "int sbdf_ti_is_arr(int id)\n{\n\tswitch (id)\n\t{\n\tcase SBDF_STRINGTYPEID:\n\tcase SBDF_BINARYTYPEID:\n\t\treturn 1;\n\t}\n\n\treturn 0;\n}", "static const unsigned char arr_ids[2] = { SBDF_STRINGTYPEID, SBDF_BINARYTYPEID };\n\nint sbdf_ti_is_arr(int id)\n{\n\treturn id == arr_ids[0] || id == arr_ids[1];\n}", [], ["C18", "C20", "C03", "C02"], True),
     "H05_malloc_memset": ("src/columnslice.c", "\tt = calloc(1, sizeof(sbdf_columnslice));\n\tif (!t)\n\t{\n\t\treturn SBDF_ERROR_OUT_OF_MEMORY;\n\t}\n\n\tt->values = values;", "\tt = malloc(sizeof(sbdf_columnslice));\n\tif (!t)\n\t{\n\t\treturn SBDF_ERROR_OUT_OF_MEMORY;\n\t}\n\tmemset(t, 0, sizeof(sbdf_columnslice));\n\n\tt->values = values;", [], ["C14", "C11", "C12", "C20"], True),
